@@ -15,3 +15,23 @@ package fftpack
 //@ valid len(r) >= n && len(work) >= 2*n && len(ifac) >= 15
 //@ panics iff !valid
 //@ writes r[k] for k in 0..n ; work[*]
+
+//@ trusted Rffti
+//@ valid len(work) >= 2*n && len(ifac) >= 15
+//@ panics iff !valid
+//@ writes work[*] ; ifac[*]
+
+//@ trusted Cffti
+//@ valid len(work) >= 4*n && len(ifac) >= 15
+//@ panics iff !valid
+//@ writes work[*] ; ifac[*]
+
+//@ trusted Costi Cosqi
+//@ valid len(work) >= 3*n && len(ifac) >= 15
+//@ panics iff !valid
+//@ writes work[*] ; ifac[*]
+
+//@ trusted Sinti
+//@ valid len(work) >= 5*(n+1)/2 && len(ifac) >= 15
+//@ panics iff !valid
+//@ writes work[*] ; ifac[*]
